@@ -120,7 +120,14 @@ def r09_1(run, model):
            "anf_imm(head) encloses anf_list(tail)" if ok else "tail is normalised outside the continuation of head",
            witness="arguments are evaluated right to left")
     hd = S.norm_ws(run.facts.text(ANF, g.body["sp"]))
-    idx_ok = ("es[0]" in hd and "es[1..]" in hd) or "split_first" in hd
+    # the list is taken apart from the front: first element / rest, by index, by split_first, or by next() on an owning iterator that is handed on
+    lp = next((p_["pat"].get("name") for p_ in g.params() if not p_["self"] and "LiftExpr" in (p_["ty"] or "")), None)
+    meths = {c["method"] for c in S.walk(g.body) if c["k"] == "MethodCall" and lp in S.idents(c["recv"])}
+    backwards = meths & {"last", "pop", "next_back", "rev", "split_last", "rsplit", "swap_remove"}
+    by_index = any(x["k"] == "Index" and S.is_path(x.get("base", x.get("expr", {})), lp) and x["index"]["k"] == "Lit" and str(x["index"].get("value")) == "0" for x in S.walk(g.body)) and \
+        any(x["k"] == "Index" and x["index"]["k"] == "Range" for x in S.walk(g.body))
+    by_iter = "next" in meths and any(S.is_path(a, lp) for c in tail for a in c["args"])
+    idx_ok = lp is not None and not backwards and (by_index or "split_first" in meths or by_iter or ("es[0]" in hd and "es[1..]" in hd))
     reasm = re.search(r"\.insert\(0,([a-z_]+)\)", hd)
     ok2 = idx_ok and reasm is not None
     run.ob("R09.1", "anf_list|reassembled head-first", ok2, site(ANF, g.node["sp"]),
